@@ -26,7 +26,10 @@ var (
 	kinds    = []string{"plog", "wlog", "create", "update", "reapply"}
 	states   = []string{"empty", "identical", "different"}
 	// offsets / ids around the 4096-row partition split of the storage keys
-	ofsPool = []uint64{1, 4094, 4095, 8190, 1 << 32}
+	ofsPool = []uint64{1, 4094, 4095, 8190, 1 << 32, 0}
+	// the PLog offsets of the event itself tried for every WLog append (0 = istructs.NullOffset, the zero
+	// value of the builder parameters)
+	wlogOwnPOfs = []uint64{0, 1, 4096}
 	idPool  = []uint64{200001, 204798, 204799, 322685000131071}
 )
 
@@ -58,7 +61,7 @@ func recs(rk string, x uint64, stamp int64, first bool) []recSpec {
 // v selects the boundary variant of offsets and ids and, for creates, the history: both events built
 // from the same stale state before either is applied (always for singletons, whose second create
 // cannot be built once the first is applied) or built one after the other
-func cell(backend string, trust int, kind, rk, state string, v int) *scenario {
+func cell(backend string, trust int, kind, rk, state string, v int, own uint64) *scenario {
 	po, wo, x := ofsPool[v%len(ofsPool)], ofsPool[(v+2)%len(ofsPool)], idPool[v%len(idPool)]
 	sc := &scenario{Cell: fmt.Sprintf("%s/%s/%s/t%d/%s", kind, rk, state, trust, backend), Backend: backend, Trust: trust}
 	add := func(ops ...*op) { sc.Ops = append(sc.Ops, ops...) }
@@ -76,12 +79,16 @@ func cell(backend string, trust int, kind, rk, state string, v int) *scenario {
 			add(bld("B", event(po, wo+1, 1002, []recSpec{cr(x+1, 502)}, nil)), do("plog", "B"))
 		}
 	case "wlog":
-		add(bld("A", a), do("plog", "A"), do("wlog", "A"))
+		// the appended event carries the PLog offset `own`; whatever it is, an occupied WLog offset is guarded
+		sc.Cell = fmt.Sprintf("wlog/p%d/%s/t%d/%s", own, state, trust, backend)
 		switch state {
+		case "empty":
+			add(bld("A", event(own, wo, 1001, recs(rk, x, 501, true), nil)), do("plog", "A"), do("wlog", "A"))
 		case "identical":
-			add(do("wlog", "A"))
+			add(bld("A", event(own, wo, 1001, recs(rk, x, 501, true), nil)), do("plog", "A"), do("wlog", "A"), do("wlog", "A"))
 		case "different":
-			add(bld("B", event(po+1, wo, 1002, []recSpec{cr(x+1, 502)}, nil)), do("plog", "B"), do("wlog", "B"))
+			add(bld("A", event(own+7, wo, 1001, recs(rk, x, 501, true), nil)), do("plog", "A"), do("wlog", "A"),
+				bld("B", event(own, wo, 1002, []recSpec{cr(x+1, 502)}, nil)), do("plog", "B"), do("wlog", "B"))
 		}
 	case "create":
 		if state == "empty" {
@@ -143,9 +150,15 @@ func matrix(r *kit.Rng) []*scenario {
 				if recordOps[k] {
 					rks = kindNames()
 				}
+				owns := []uint64{0}
+				if k == "wlog" {
+					owns = wlogOwnPOfs
+				}
 				for _, rk := range rks {
-					for _, s := range states {
-						out = append(out, cell(b, t, k, rk, s, r.Intn(20)))
+					for _, own := range owns {
+						for _, s := range states {
+							out = append(out, cell(b, t, k, rk, s, r.Intn(30), own))
+						}
 					}
 				}
 			}
@@ -161,7 +174,12 @@ func matrixTags() []string {
 		for t := 0; t <= 2; t++ {
 			for _, k := range kinds {
 				for _, s := range states {
-					if !recordOps[k] || k == "reapply" {
+					switch {
+					case k == "wlog":
+						for _, own := range wlogOwnPOfs {
+							out = append(out, fmt.Sprintf("cell:t%d:wlog:p%d:%s:%s", t, own, s, b))
+						}
+					case !recordOps[k] || k == "reapply":
 						out = append(out, fmt.Sprintf("cell:t%d:%s:%s:%s", t, k, s, b))
 					}
 					if recordOps[k] {
@@ -253,6 +271,22 @@ func extras() []*scenario {
 			bld("O2", &evSpec{Part: part, POfs: 4, WS: ws, WOfs: 4, Stamp: 1002, Arg: &argSpec{ID: 200010, LineID: 200001, Stamp: 702}, Creates: one(200011, 502)}),
 			do("plog", "O2"), do("apply", "O2"), do("wlog", "O2"), do("apply", "O"))
 	}
+	for t := 0; t <= 2; t++ {
+		for i, b := range backends {
+			// finding F-A: an update built from the record object the Apply2 callback handed out for a created row
+			// (its isNew flag is set) - against the same update built from Records().Get
+			k := recKinds[(i+t)%len(recKinds)].Name
+			x := idPool[(i+t)%len(idPool)]
+			mk("update-from-created-object/"+k, b, t, bld("A", event(3, 3, 1001, recs(k, x, 501, true), nil)), do("plog", "A"), do("apply", "A"),
+				bld("U", event(4, 4, 1002, nil, []recSpec{{Kind: k, ID: x, Stamp: 601, FromCB: "A"}})), do("plog", "U"), do("apply", "U"),
+				bld("U2", event(5, 5, 1003, nil, []recSpec{{Kind: k, ID: x, Stamp: 602}})), do("plog", "U2"), do("apply", "U2"),
+				&op{Op: "restart"}, reread("U", "R"), do("apply", "R"), do("reapply_recs", "R"))
+			// `update corrupted` for the WLog: a sys.Corrupted event with null PLog offset, built by BuildPLogEvent
+			// (never put into the PLog), replaces a WLog entry
+			mk("corrupted/buildplog-wlog", b, t, bld("A", event(7, 7, 1001, one(200001, 501), nil)), do("plog", "A"), do("wlog", "A"),
+				bld("C", corr(0, 7, 2001)), do("buildplog", "C"), do("wlog", "C"), do("wlog", "C"))
+		}
+	}
 	// a trust level the switch has no arm for
 	mk("unknown-trust-level", "mem", 3, bld("A", event(3, 3, 1001, one(200001, 501), nil)), do("plog", "A"))
 	return out
@@ -315,7 +349,11 @@ func genScenario(r *kit.Rng, tier string) *scenario {
 			}
 			if !seen[j] {
 				seen[j] = true
-				updates = append(updates, rec(j))
+				u := rec(j)
+				if j < 2 && r.Chance(1, 6) {
+					u.FromCB = "E0" // the record object E0's Apply2 callback handed out (a created row)
+				}
+				updates = append(updates, u)
 			}
 		}
 		if len(creates)+len(updates) == 0 {
